@@ -21,6 +21,7 @@ import (
 	"context"
 	gosql "database/sql"
 	"database/sql/driver"
+	"fmt"
 
 	"seata.apache.org/seata-go/pkg/datasource/sql/exec"
 	"seata.apache.org/seata-go/pkg/datasource/sql/types"
@@ -160,17 +161,19 @@ func (c *ATConn) createOnceTxContext(ctx context.Context) bool {
 	return onceTx
 }
 
-func (c *ATConn) createNewTxOnExecIfNeed(ctx context.Context, f func() (types.ExecResult, error)) (types.ExecResult, error) {
-	var (
-		tx  driver.Tx
-		err error
-	)
+func (c *ATConn) createNewTxOnExecIfNeed(ctx context.Context, f func() (types.ExecResult, error)) (ret types.ExecResult, err error) {
+	var tx driver.Tx
 
 	if c.txCtx.TransactionMode != types.Local && tm.IsGlobalTx(ctx) && c.autoCommit {
 		tx, err = c.BeginTx(ctx, driver.TxOptions{Isolation: driver.IsolationLevel(gosql.LevelDefault)})
 		if err != nil {
 			return nil, err
 		}
+		// the statement-scoped transaction ends in this function, whatever its outcome:
+		// afterwards the connection is in autocommit mode again
+		defer func() {
+			c.autoCommit = true
+		}()
 	}
 	defer func() {
 		recoverErr := recover()
@@ -182,16 +185,27 @@ func (c *ATConn) createNewTxOnExecIfNeed(ctx context.Context, f func() (types.Ex
 					log.Errorf("conn at rollback error:%v", rollbackErr)
 				}
 			}
+			ret, err = nil, fmt.Errorf("at exec panic: %v", recoverErr)
 		}
 	}()
 
-	ret, err := f()
+	ret, err = f()
 	if err != nil {
+		if tx != nil {
+			// nothing of a failed statement may stay behind in an open local transaction
+			if rollbackErr := tx.Rollback(); rollbackErr != nil {
+				log.Errorf("conn at rollback error:%v", rollbackErr)
+			}
+		}
 		return nil, err
 	}
 
 	if tx != nil {
-		if err := tx.Commit(); err != nil {
+		if err = tx.Commit(); err != nil {
+			// registration, undo-log flush or the local commit failed: end the local transaction
+			if rollbackErr := tx.Rollback(); rollbackErr != nil {
+				log.Errorf("conn at rollback error:%v", rollbackErr)
+			}
 			return nil, err
 		}
 	}
